@@ -423,6 +423,7 @@ type SpecFun struct {
 	Ret    string
 	Body   Expr // nil => uninterpreted
 	Text   string
+	Assumed bool // lemma taken as an axiom (listed in the evidence)
 }
 
 type Axiom struct {
@@ -460,6 +461,9 @@ type ContractFile struct {
 	Specs  []*SpecFun
 	Axioms []*Axiom
 	Consts map[string]string
+	GlobalGhosts map[string]string
+	Guarded []GuardDecl
+	Writers []WritersDecl
 }
 
 // ParseContracts parses the //@ lines of a contract file.
@@ -528,6 +532,17 @@ func ParseContracts(path, pkgName, src string) (*ContractFile, error) {
 				return nil, fmt.Errorf("%s: %v", where, err)
 			}
 			cf.Specs = append(cf.Specs, sf)
+		case "axiomlemma":
+			i := strings.Index(rest, "):")
+			if i < 0 {
+				return nil, fmt.Errorf("%s: axiomlemma needs 'name(params): expr'", where)
+			}
+			sf, err := parseSpecFun(rest[:i+1] + " bool = " + rest[i+2:])
+			if err != nil {
+				return nil, fmt.Errorf("%s: %v", where, err)
+			}
+			sf.Assumed = true
+			cf.Lemmas = append(cf.Lemmas, sf)
 		case "lemma":
 			// lemma name(params): body   -- instantiated explicitly with "use"; proved from the axioms as obligation lemma:name
 			i := strings.Index(rest, "):")
@@ -549,18 +564,64 @@ func ParseContracts(path, pkgName, src string) (*ContractFile, error) {
 				return nil, fmt.Errorf("%s: %v", where, err)
 			}
 			cf.Axioms = append(cf.Axioms, &Axiom{Name: strings.TrimSpace(rest[:i]), E: e, Text: rest[i+1:]})
+		case "writers":
+			// writers Type.field: fn, fn, ...   (only these functions may assign the field or update the map/slice it holds)
+			var wprops []string
+			if strings.HasPrefix(rest, "[") {
+				end := strings.Index(rest, "]")
+				wprops = strings.Split(rest[1:end], ",")
+				rest = strings.TrimSpace(rest[end+1:])
+			}
+			i := strings.Index(rest, ":")
+			if i < 0 || !strings.Contains(rest[:i], ".") {
+				return nil, fmt.Errorf("%s: writers needs '[props] Type.field: fn, fn'", where)
+			}
+			tf := strings.SplitN(strings.TrimSpace(rest[:i]), ".", 2)
+			wd := WritersDecl{Pkg: pkgName, Type: tf[0], Field: tf[1], Props: wprops}
+			for _, w := range strings.Split(rest[i+1:], ",") {
+				wd.Allowed = append(wd.Allowed, qualifyUnitName(strings.TrimSpace(w), pkgName))
+			}
+			cf.Writers = append(cf.Writers, wd)
+		case "guarded":
+			// guarded Type.field by lockfield
+			f := strings.Fields(rest)
+			if len(f) == 3 && f[1] == "by" && strings.Contains(f[0], ".") {
+				tf := strings.SplitN(f[0], ".", 2)
+				cf.Guarded = append(cf.Guarded, GuardDecl{Pkg: pkgName, Type: tf[0], Field: tf[1], Lock: f[2]})
+			} else {
+				return nil, fmt.Errorf("%s: guarded needs 'Type.field by lockfield'", where)
+			}
 		case "const":
 			f := strings.Fields(rest)
 			if len(f) >= 3 && f[1] == "=" {
 				cf.Consts[f[0]] = strings.Join(f[2:], " ")
 			}
 		default:
+			if cur == nil && kw == "ghost" {
+				f := strings.Fields(rest)
+				if len(f) != 2 || !strings.HasPrefix(f[0], "$") {
+					return nil, fmt.Errorf("%s: global ghost needs '$name type'", where)
+				}
+				if cf.GlobalGhosts == nil {
+					cf.GlobalGhosts = map[string]string{}
+				}
+				cf.GlobalGhosts[f[0]] = f[1]
+				continue
+			}
 			if cur == nil {
 				return nil, fmt.Errorf("%s: %q outside a unit", where, kw)
 			}
 			switch kw {
 			case "prop":
 				cur.Props = append(cur.Props, strings.Fields(strings.ReplaceAll(rest, ",", " "))...)
+			case "requires-inv":
+				// object invariant: assumed on entry of the unit; NOT asserted at call sites (established by
+				// constructors / loaders and re-established by every writer; see the writers declaration)
+				c, err := mkClause("requires-inv", rest)
+				if err != nil {
+					return nil, err
+				}
+				cur.Requires = append(cur.Requires, c)
 			case "requires":
 				c, err := mkClause("requires", rest)
 				if err != nil {
